@@ -1657,6 +1657,9 @@ def prepend_package(builderT:Type[ISystemBuilder], package:str) -> Type[ISystemB
                 prependedpackage = system.Package(
                     system, m, prependedpackage)
                 system.addObject(prependedpackage)
+                # The fake package has no source: there is nothing to process, 
+                # it must not be handed to processModule() when something imports from it.
+                prependedpackage.state = ProcessingState.PROCESSED
         
         def addModule(self, path: Path, parent_name: Optional[str] = None, ) -> None:
             if parent_name is None:
